@@ -29,6 +29,27 @@ def case_classes(prog: Program, key: str) -> tuple[set[str], ast.Match]:
     return out, ms[0]
 
 
+def callee_head_acceptance(prog: Program, res: Results, rid: str, rule_stats) -> None:
+    """the argument of a call may be edited only when the *head* of the (possibly curried, possibly parenthesised) callee is
+    function-like: wrapper classes are peeled, never accepted as such"""
+    f = prog.func("_supports_attrset_argument")
+    res.analysed_functions.add(f.key)
+    WRAPPERS = {"FunctionCall", "Parenthesis"}
+    for n in walk_no_nested(f.node):
+        if isinstance(n, ast.Return) and isinstance(n.value, ast.Call) and isinstance(n.value.func, ast.Name) and n.value.func.id == "isinstance" \
+                and len(n.value.args) == 2:
+            rule_stats.instances += 1
+            t = n.value.args[1]
+            names = {norm(e) for e in (t.elts if isinstance(t, ast.Tuple) else [t])}
+            bad = sorted(names & WRAPPERS)
+            rule_stats.ob(not bad, {"site": f.key, "accepting_classes": sorted(names)})
+            if bad:
+                res.add(rid, (f.key, "wrapper class accepted as a function-like callee", ",".join(bad)), f.loc(n),
+                        f"{f.key}: `{norm(n)[:80]}` accepts {bad} itself as function-like instead of walking to the head of the curried "
+                        f"call: `\"prefix\" extra {{ … }}` / `import ./x.nix {{ }} {{ … }}` become editable shapes and set/rm rewrite them "
+                        f"instead of refusing")
+
+
 def run(prog: Program) -> Results:
     res = Results("C05")
     check_bare_names(prog, res, "R-C05-1")
@@ -102,7 +123,7 @@ def run(prog: Program) -> Results:
     from sa.cfg import CFG, ReachingDefs
     r7 = res.rule("R-C05-7", "formatting parentheses are transparent on every path: where a class test in the CLI target resolution "
                   "sees a value that was stripped of parentheses on one incoming path, it was stripped on all of them "
-                  "(a curried call `(g f) a { ... }` is walked to its head through every level)", floor=4)
+                  "(a curried call `(g f) a { ... }` is walked to its head through every level; wrapper classes are never accepted as the head)", floor=4)
     for f in prog.all_functions():
         if f.module != "nix_manipulator/cli/manipulations.py":
             continue
@@ -129,7 +150,10 @@ def run(prog: Program) -> Results:
                         f"{f.key}: `{norm(c)[:70]}` is reached both with a value stripped of parentheses and with "
                         f"`{norm(d)[:60] if not isinstance(d, str) else 'the raw parameter'}`, which is not: a parenthesised expression in that "
                         f"position makes the test fail and the edit is refused because of the wrapper")
+    callee_head_acceptance(prog, res, "R-C05-7", r7)
     from sa.rules import merge
     merge.check(prog, res, "R-C05-5", "R-C05-6")
+    from sa.rules import cursor
+    cursor.check(prog, res, "R-C05-8", ("cli/manipulations.py",), 4)
     res.assumptions = ["the value read back equals VALUE, intermediate-set creation and pruning are runtime effects not decided here"]
     return res
